@@ -125,7 +125,7 @@ Proof. destruct a; reflexivity. Qed.
 (* the component an atom acts on *)
 Definition comp_of (a : atom) : comp :=
   match a with
-  | RngTorch => CTorch | RngNumpy => CNumpy | RngPython => CPython
+  | RngTorch | RngReseed => CTorch | RngNumpy => CNumpy | RngPython => CPython
   | Clock | ClockTimer => CClock | Environ => CEnv | SetIteration => CHash
   | ParamWrite => CParams | FileWrite => CFiles | UnknownModule _ => COther
   end.
@@ -415,7 +415,13 @@ Lemma foreign_or_write_param : forall a, foreign_or_write a = false -> param_wri
 Proof. intros a H. unfold foreign_or_write in H. apply orb_false_iff in H. tauto. Qed.
 
 Lemma foreign_or_write_foreign : forall a, foreign_or_write a = false -> foreign_source a = false.
-Proof. intros a H. unfold foreign_or_write in H. apply orb_false_iff in H. tauto. Qed.
+Proof.
+  intros a H. unfold foreign_or_write, foreign_or_reseed in H.
+  apply orb_false_iff in H. destruct H as [H _]. apply orb_false_iff in H. tauto.
+Qed.
+
+Lemma foreign_or_reseed_foreign : forall a, foreign_or_reseed a = false -> foreign_source a = false.
+Proof. intros a H. unfold foreign_or_reseed in H. apply orb_false_iff in H. tauto. Qed.
 
 Lemma rng_torch_touches : forall a, rng_torch a = false -> touches D_torch a = false.
 Proof. destruct a; simpl; intro H; try reflexivity; discriminate. Qed.
